@@ -70,12 +70,6 @@ func verifC37Leaves(n int) verifC37Array {
 
 var verifC37Factory = crypto.HashFactory{HashType: crypto.Sha512_256}
 
-func verifC37Pos(label string, n int) uint64 {
-	p := vr.U64(label)
-	vr.Assume(p < uint64(n))
-	return p
-}
-
 // ghost: ceil(log2(n)), the depth of the tree over n leaves
 func verifC37Depth(n int) int {
 	d := 0
@@ -106,7 +100,7 @@ func verifC37SymbolicProof(maxHints int) *Proof {
 //
 //verif:harness prop=C37 reach=done,verified unwind=16 budget=200 thorough.budget=2400
 func VerifC37Complete() {
-	n := 1 + vr.Choice("n", vr.Param(4, 7))
+	n := 1 + vr.Choice("n", vr.Param(6, 8))
 	arr := verifC37Leaves(n)
 	tree, err := Build(arr, verifC37Factory)
 	vr.Assert("c37.build-ok", err == nil && tree != nil)
@@ -116,7 +110,7 @@ func VerifC37Complete() {
 	idxs := make([]uint64, 0, k)
 	elems := make(map[uint64]crypto.Hashable)
 	for i := 0; i < k; i++ {
-		p := verifC37Pos(names[i], n)
+		p := uint64(vr.Choice(names[i], n)) // every position, enumerated: the whole run stays concrete
 		idxs = append(idxs, p)
 		elems[p] = arr[p]
 	}
@@ -201,7 +195,7 @@ func VerifC37SoundPair() {
 	arr := verifC37Leaves(n)
 	tree, err := Build(arr, verifC37Factory)
 	vr.Assert("c37.build-ok", err == nil)
-	p0, p1 := verifC37Pos("p0", n), verifC37Pos("p1", n)
+	p0, p1 := uint64(vr.Choice("p0", n)), uint64(vr.Choice("p1", n))
 	vr.Assume(p0 != p1)
 	proof, err := tree.Prove([]uint64{p0, p1})
 	vr.Assert("c37.prove-ok", err == nil)
@@ -293,16 +287,16 @@ func VerifC37SoundHintSizes() {
 //
 //verif:harness prop=C37 reach=done,verified unwind=16 budget=200 thorough.budget=2400
 func VerifC37VCComplete() {
-	n := 1 + vr.Choice("n", vr.Param(4, 6))
+	n := 1 + vr.Choice("n", vr.Param(6, 8))
 	arr := verifC37Leaves(n)
 	tree, err := BuildVectorCommitmentTree(arr, verifC37Factory)
 	vr.Assert("c37.vc.build-ok", err == nil && tree != nil)
-	k := 1 + vr.Choice("k", 2)
-	names := []string{"p0", "p1"}
+	k := 1 + vr.Choice("k", vr.Param(2, 3))
+	names := []string{"p0", "p1", "p2"}
 	idxs := make([]uint64, 0, k)
 	elems := make(map[uint64]crypto.Hashable)
 	for i := 0; i < k; i++ {
-		p := verifC37Pos(names[i], n)
+		p := uint64(vr.Choice(names[i], n)) // every position, enumerated: the whole run stays concrete
 		idxs = append(idxs, p)
 		elems[p] = arr[p]
 	}
@@ -350,7 +344,7 @@ func VerifC37VCBindingKnownDepth() {
 //
 //verif:harness prop=C37 reach=done,accepted,rejected unwind=16 budget=200 thorough.budget=2400
 func VerifC37VCBinding() {
-	n := 1 + vr.Choice("n", vr.Param(4, 6))
+	n := 1 + vr.Choice("n", vr.Param(4, 5))
 	arr := verifC37Leaves(n)
 	tree, err := BuildVectorCommitmentTree(arr, verifC37Factory)
 	vr.Assert("c37.vc.build-ok", err == nil)
